@@ -580,6 +580,67 @@ func c03R2R4R5(p *Prog, r *Report) {
 					}
 				}
 			}
+			// the window start kept in a field of the group: then the tiling is where that field
+			// is assigned - a running sum of the groups' widths, taken in the sorted group order
+			// that the channel numbering uses
+			if ld, isLd := sl.Low.(*ssa.UnOp); isLd && ld.Op == token.MUL && !okAdv {
+				if fa, isFA := ld.X.(*ssa.FieldAddr); isFA {
+					st := derefStruct(fa.X.Type())
+					fname := st.Field(fa.Field).Name()
+					nStores, nGood := 0, 0
+					for _, g := range p.LibFuncs() {
+						gc := NewPolyCtx(g)
+						Instrs(g, func(in ssa.Instruction) {
+							s2, ok := in.(*ssa.Store)
+							if !ok {
+								return
+							}
+							fa2, ok := s2.Addr.(*ssa.FieldAddr)
+							if !ok || derefStruct(fa2.X.Type()) != st || st.Field(fa2.Field).Name() != fname {
+								return
+							}
+							nStores++
+							ph, ok := s2.Val.(*ssa.Phi)
+							if !ok {
+								return
+							}
+							zero, adv := false, false
+							for _, e := range ph.Edges {
+								if k, isC := constInt(e); isC && k == 0 {
+									zero = true
+									continue
+								}
+								d := gc.Of(e).Sub(gc.Of(ph))
+								syms := d.Symbols()
+								if len(syms) == 1 && len(d) == 1 && d[syms[0]] == 1 && strings.HasSuffix(basePath(syms[0]), ".nchan") {
+									adv = true
+								}
+							}
+							// the loop runs over the sorted keys
+							sortedOrder := false
+							for _, l := range RangeLoops(g) {
+								if l.Header != ph.Block() {
+									continue
+								}
+								if _, f, _, okf := FieldOf(l.Over); okf && f == "groupKeysSorted" {
+									sortedOrder = true
+								}
+								for _, st3 := range StoresTo(g, "", "groupKeysSorted") {
+									if st3.Val == l.Over {
+										sortedOrder = true
+									}
+								}
+							}
+							if zero && adv && sortedOrder {
+								nGood++
+							}
+						})
+					}
+					if nStores > 0 && nStores == nGood {
+						okAdv = true
+					}
+				}
+			}
 			okWin = okW && okAdv
 		}
 		r.Check(okWin, "C03.R2", "group windows are group.nchan wide and tile the buffer list", p.InstrPos(demux), "width "+winDesc+", next window starts where this one ends", "the window of buffers handed to a group is not [a, a+group.nchan) with a advancing by group.nchan: groups overwrite each other's channels or leave channels empty")
@@ -629,20 +690,48 @@ func c03R2R4R5(p *Prog, r *Report) {
 
 	// R4: order inside the tick
 	var fill, first, trim *ssa.Call
-	Instrs(fn, func(in ssa.Instruction) {
-		c, ok := in.(*ssa.Call)
+	// the calls may sit in a helper of the tick (one level down): `top` is then the helper's call
+	// in the reader loop, which stands for them in order questions asked in the loop
+	top := map[*ssa.Call]ssa.Instruction{}
+	InstrsDeep(fn, 1, func(d DeepInstr) {
+		c, ok := d.In.(*ssa.Call)
 		if !ok || c.Call.StaticCallee() == nil {
 			return
 		}
 		switch c.Call.StaticCallee().Name() {
 		case "fillMissingPackets":
 			fill = c
+			top[c] = d.Top
 		case "firstSeqNum":
 			first = c
+			top[c] = d.Top
 		case "trimPacketsBefore":
 			trim = c
+			top[c] = d.Top
 		}
 	})
+	// resultsOf: the values a helper hands back as its k-th result, when v is that result at the
+	// helper's call in the reader loop; otherwise v itself
+	resultsOf := func(v ssa.Value) []ssa.Value {
+		ex, ok := v.(*ssa.Extract)
+		if !ok {
+			return []ssa.Value{v}
+		}
+		call, ok := ex.Tuple.(*ssa.Call)
+		if !ok || call.Call.StaticCallee() == nil || !isModuleFn(call.Call.StaticCallee()) {
+			return []ssa.Value{v}
+		}
+		var out []ssa.Value
+		Instrs(call.Call.StaticCallee(), func(in ssa.Instruction) {
+			if ret, ok := in.(*ssa.Return); ok && ex.Index < len(ret.Results) {
+				out = append(out, ret.Results[ex.Index])
+			}
+		})
+		if len(out) == 0 {
+			return []ssa.Value{v}
+		}
+		return out
+	}
 	// the first-number step written in place: queue[0].SequenceNumber() (minus the sync offset) of a group
 	isFirstVal := func(v ssa.Value) bool {
 		ex, ok := v.(*ssa.Extract)
@@ -688,9 +777,21 @@ func c03R2R4R5(p *Prog, r *Report) {
 		r.Bad("C03.R4", "fill / first-number / trim / count calls present in the tick", p.Pos(fn.Pos()), "a step of the alignment is missing")
 	} else {
 		sameRecv := fill.Call.Args[0] == firstRecv
-		r.Check(InstrDominates(fill, first) && sameRecv, "C03.R4", "per group, gaps are filled before the group's first sequence number is taken", p.InstrPos(first), "fillMissingPackets dominates firstSeqNum on the same group",
+		fillBefore := fill.Parent() == first.Parent() && InstrDominates(fill, first)
+		if fill.Parent() != first.Parent() && top[fill] != nil && top[first] != nil && top[fill].Parent() == top[first].Parent() {
+			fillBefore = InstrDominates(top[fill], top[first])
+			sameRecv = true // different functions: the group identity is not compared
+		}
+		r.Check(fillBefore && sameRecv, "C03.R4", "per group, gaps are filled before the group's first sequence number is taken", p.InstrPos(first), "fillMissingPackets dominates firstSeqNum on the same group",
 			"a group's first sequence number is taken before its gaps are filled: a lost first packet makes the alignment trim real packets of the other groups and the filler is discarded again")
-		r.Check(!sameTightLoop(trim.Block(), first.Block()) && InstrReaches(first, trim), "C03.R4", "all first numbers are known before any group is trimmed", p.InstrPos(trim), "the trim loop follows the loop that finds the largest first number", "groups are trimmed before the largest first sequence number over all groups is known")
+		firstAt, trimAt := ssa.Instruction(first), ssa.Instruction(trim)
+		if top[first] != nil {
+			firstAt = top[first]
+		}
+		if top[trim] != nil {
+			trimAt = top[trim]
+		}
+		r.Check(!(sameTightLoop(trimAt.Block(), firstAt.Block()) && sameTightLoop(firstAt.Block(), trimAt.Block())) && firstAt != trimAt && InstrReaches(firstAt, trimAt), "C03.R4", "all first numbers are known before any group is trimmed", p.InstrPos(trim), "the trim loop follows the loop that finds the largest first number", "groups are trimmed before the largest first sequence number over all groups is known")
 		// the same group: the counting call takes the group, or the group's queue
 		sameGroup := trim.Call.Args[0] == count.Call.Args[0]
 		for _, a := range count.Call.Args {
@@ -701,7 +802,11 @@ func c03R2R4R5(p *Prog, r *Report) {
 		r.Check(InstrDominates(trim, count) && sameGroup, "C03.R4", "frames are counted after the group was trimmed", p.InstrPos(count), "trimPacketsBefore dominates countSamplesInQueue on the same group", "frames are counted before the group is trimmed to the common start")
 		// the trim argument is the maximum of the first numbers: phi updated under sn0 > firstSn
 		okMax := false
-		if ph, ok := trim.Call.Args[1].(*ssa.Phi); ok {
+		for _, tv := range resultsOf(trim.Call.Args[1]) {
+			ph, ok := tv.(*ssa.Phi)
+			if !ok {
+				continue
+			}
 			var walk func(ph *ssa.Phi, d int)
 			seen := map[*ssa.Phi]bool{}
 			walk = func(ph *ssa.Phi, d int) {
@@ -777,7 +882,7 @@ func c03R2R4R5(p *Prog, r *Report) {
 				// the outermost loop header phi: has an edge from outside the loop (constant 0)
 				for i, e := range x.Edges {
 					if c, ok := e.(*ssa.Const); ok {
-						if k, _ := constInt(c); k == 0 && !x.Block().Dominates(x.Block().Preds[i]) {
+						if k, _ := constInt(c); k == 0 && !x.Block().Dominates(x.Block().Preds[i]) && x.Parent() == fn {
 							hdrPhi = x
 						}
 					}
@@ -792,6 +897,12 @@ func c03R2R4R5(p *Prog, r *Report) {
 						if isComponentOf(stripConv(o), fill) {
 							accum = true
 						}
+						// a helper's result that itself sums what gap filling reports
+						if rs := resultsOf(stripConv(o)); len(rs) > 0 && rs[0] != stripConv(o) && rs[0].Parent() == fill.Parent() && fill.Parent() != fn {
+							for _, rv := range rs {
+								walk(rv, d+1)
+							}
+						}
 					}
 					walk(x.X, d+1)
 					walk(x.Y, d+1)
@@ -802,6 +913,26 @@ func c03R2R4R5(p *Prog, r *Report) {
 		r.Check(accum, "C03.R5", key+" accumulates what gap filling reports", p.InstrPos(send), "sum of fillMissingPackets results", "the count sent with a block is not accumulated from the filler reported by gap filling")
 		if hdrPhi == nil {
 			r.Bad("C03.R5", key+" survives a tick that emits no block", p.InstrPos(send), "the count is local to one read tick: filler inserted on a tick that has to wait for more data is never reported")
+			continue
+		}
+		// a way round the loop that has passed gap filling but hands the old count on unchanged
+		// loses what that tick filled in
+		fillAt := ssa.Instruction(fill)
+		if top[fill] != nil {
+			fillAt = top[fill]
+		}
+		stale := ""
+		for i, e := range hdrPhi.Edges {
+			pred := hdrPhi.Block().Preds[i]
+			if !hdrPhi.Block().Dominates(pred) || send.Block() == pred || send.Block().Dominates(pred) {
+				continue
+			}
+			if e == ssa.Value(hdrPhi) && (fillAt.Block() == pred || BlockReaches(fillAt.Block(), pred)) && fillAt.Block() != hdrPhi.Block() {
+				stale = p.InstrPos(pred.Instrs[len(pred.Instrs)-1])
+			}
+		}
+		if stale != "" {
+			r.Bad("C03.R5", key+" survives a tick that emits no block", p.InstrPos(send), "the tick that goes round the loop at "+stale+" has run gap filling but carries the old count on: filler inserted on a tick that has to wait for more data is never reported")
 			continue
 		}
 		r.OK("C03.R5", key+" survives a tick that emits no block", p.InstrPos(send), "carried by the reader loop across `continue`")
